@@ -66,3 +66,110 @@ def register(reg):
 		raises={'ValueError': 'not dtype_ok(coords1) or not dtype_ok(coords2)'},
 		ensures=['result == one_minus(D(coords1, coords2))'],
 	)
+
+
+# ---- C05 ------------------------------------------------------------------------------------------------------------------
+from pyvc.values import TRec, TInt
+TSlice = TRec('Slice', 'builtins.slice', {'start': TInt, 'stop': TInt}, consts={'step': None})
+UM = 'gambit.util.misc.'
+
+PAR_INSTANCES = [(f'{a[4:-2]},{b[4:-2]}', {'COORDS_T': a, 'COORDS_T_2': b}) for a, b in (('uint16_t', 'uint16_t'), ('uint32_t', 'uint64_t'), ('uint64_t', 'uint16_t'))]
+
+
+def register_bulk(reg):
+	reg.contract(UM + 'chunk_slices',
+		types={'n': Int, 'size': Int},
+		raises={'ValueError': 'size <= 0'},
+		yields=TSlice,
+		ensures=['forall(j, 0 <= j, j < len(Y), Y[j].start == j * size and Y[j].stop == (j + 1) * size)',
+		         'implies(n <= 0, len(Y) == 0)',
+		         # the chunks cover 0..n-1: the last one starts below n and the next one would start at or after n
+		         'implies(n > 0, len(Y) >= 1 and (len(Y) - 1) * size < n and n <= len(Y) * size)'],
+		loops={0: invariant('start == len(Y) * size', 'start >= 0',
+		                    'forall(j, 0 <= j, j < len(Y), Y[j].start == j * size and Y[j].stop == (j + 1) * size)',
+		                    'implies(len(Y) >= 1, (len(Y) - 1) * size < n)', 'implies(n <= 0, len(Y) == 0)',
+		                    decreases='n - start')},
+	)
+	reg.contract(PM + 'num_pairs', types={'n': Int}, requires=['n >= 0'], ensures=['2 * result <= n * (n - 1)', 'n * (n - 1) < 2 * result + 2'], returns=Int)   # = n(n-1)/2 (the product is even; parity is not needed for the floor form)
+	SEG = 'ref_coords[ref_bounds[r]:ref_bounds[r + 1]]'
+	reg.contract(CM + '_jaccarddist_parallel',
+		requires=['len(ref_bounds) >= 1', 'len(out) == len(ref_bounds) - 1', 'len(ref_bounds) - 1 < 2**31',
+		          'sorted_unique(query)',
+		          'forall(r, 0 <= r, r < len(ref_bounds) - 1, 0 <= ref_bounds[r] and ref_bounds[r] <= ref_bounds[r + 1] and ref_bounds[r + 1] <= len(ref_coords))',
+		          'forall(r, 0 <= r, r < len(ref_bounds) - 1, sorted_unique(' + SEG + '))',
+		          'len(query) + len(ref_coords) < 2**62'],
+		writes=['out'],
+		ensures=['forall(r, 0 <= r, r < len(ref_bounds) - 1, out[r] == D(query, ' + SEG + '))'],
+		loops={0: invariant('0 <= i <= N', 'N == len(ref_bounds) - 1', 'forall(r, 0 <= r, r < i, out[r] == D(query, ' + SEG + '))',
+		                    counter='i', decreases='N - i')},
+	)
+
+
+# jaccarddist_array ---------------------------------------------------------------------------------------------------------
+from pyvc.libspec.np import F32Arr
+from .specns import NS
+from pyvc.ops import *
+from pyvc.values import *
+import z3
+from pyvc.values import TArr
+
+
+class SigArrT(TypeSpec):
+	def __init__(self, dt='u2'):
+		self.dt = dt
+
+	def make(self, name, st, eng):
+		return Rec('gambit.sigs.base.SignatureArray', values=NdArr(self.dt), bounds=NdArr('i8'), kmerspec=Const(None)).make(name, st, eng)
+
+
+def refview(pe, refs, r):
+	"""the r-th reference signature: values[bounds[r]:bounds[r+1]] for a SignatureArray, refs[r] for a sequence"""
+	from pyvc.values import Record
+	rv = pe.deref(refs)
+	r = int_term(r)
+	if isinstance(rv, Record):
+		v, b = pe.deref(rv.fields['values']), pe.deref(rv.fields['bounds'])
+		return v.sub(b.at(r), b.at(r + 1))
+	return rv.at(r)
+
+
+def nrefs(pe, refs):
+	from pyvc.values import Record
+	rv = pe.deref(refs)
+	if isinstance(rv, Record):
+		return SInt(pe.deref(rv.fields['bounds']).length - 1)
+	return SInt(rv.length)
+
+
+def refs_ok(pe, refs):
+	"""every reference is a sorted duplicate-free array of non-negative indices; a SignatureArray satisfies its representation invariant"""
+	from pyvc.values import Record
+	from pyvc import spec as S
+	rv = pe.deref(refs)
+	r, p = z3.Int(fresh_name('r')), z3.Int(fresh_name('p'))
+	if isinstance(rv, Record):
+		v, b = pe.deref(rv.fields['values']), pe.deref(rv.fields['bounds'])
+		n = b.length - 1
+		return SBool(z3.And(b.length >= 1, n < 2 ** 31,
+			z3.ForAll([r], z3.Implies(z3.And(0 <= r, r < n), z3.And(0 <= b.at(r), b.at(r) <= b.at(r + 1), b.at(r + 1) <= v.length,
+				S.strictly_increasing(v.arr, v.off + b.at(r), b.at(r + 1) - b.at(r))))),
+			z3.ForAll([p], z3.Select(v.arr, p) >= 0)))
+	return SBool(z3.ForAll([r], z3.Implies(z3.And(0 <= r, r < rv.length), z3.And(
+		S.strictly_increasing(rv.at(r).arr, 0, rv.at(r).length), z3.ForAll([p], z3.Select(rv.at(r).arr, p) >= 0)))))
+
+
+NS['refview'] = refview
+NS['nrefs'] = nrefs
+NS['refs_ok'] = refs_ok
+
+
+def register_array(reg):
+	reg.contract(PM + 'jaccarddist_array',
+		requires=['sorted_unique(query)', 'nonneg(query)', 'refs_ok(refs)', 'lens_ok(query, refs)'],
+		raises={'ValueError': 'not dtype_ok(query) or (not isnone(out) and (len(out) != nrefs(refs) or not is_f32(out)))'},
+		ensures=['len(result) == nrefs(refs)', 'forall(r, 0 <= r, r < nrefs(refs), result[r] == D(query, refview(refs, r)))',
+		         'isnone(out) or result is out'],
+		writes=['out'],
+		loops={0: invariant('0 <= _i0 <= len(__it0)', 'len(out) == len(refs)', 'forall(r, 0 <= r, r < _i0, out[r] == D(query, refview(refs, r)))',
+		                    decreases='len(__it0) - _i0')},
+	)
